@@ -32,7 +32,7 @@ for d in sorted(glob.glob('/verif/seeded/C*-m*')):
                meta.get('check_exit_code_with_change', '?'), (first[0] if first else '')[:110]))
 with open('/verif/seeded/MATRIX.md', 'w') as fh:
   fh.write('# Seeded changes vs checks (quick tier)\n\nEach row: the change was applied to a scratch worktree of /repo HEAD, the 179 tests still pass, the demo fails with it and passes without; '
-           'then the property\'s registered quick check ran against that worktree. Rows m1-m4 were detected by the full quick check in the matrix runs of their round and were re-validated after the last harness changes with exactly the harnesses listed (tools/seed_matrix.sh with ONLY_FROM_META=1); rows m5-m6 are from full quick checks with the final harnesses.\n\n| seed | property | harnesses reporting a replayed VIOLATION | exit | what the change is (first line of notes.md) |\n|---|---|---|---|---|\n')
+           'then the property\'s registered quick check ran against that worktree. Rows m1-m4 were detected by the full quick check in the matrix runs of their round and were re-validated after the last harness changes with exactly the harnesses listed (tools/seed_matrix.sh with ONLY_FROM_META=1); rows m5-m7 are from full quick checks with the final harnesses.\n\n| seed | property | harnesses reporting a replayed VIOLATION | exit | what the change is (first line of notes.md) |\n|---|---|---|---|---|\n')
   for r in rows:
     fh.write('| %s | %s | %s | %s | %s |\n' % r)
 print(len(rows), 'rows;', len([r for r in rows if r[3] == 1]), 'detected')
@@ -54,7 +54,7 @@ for d in sorted(glob.glob('/verif/seeded/C*-m*')):
   else:
     cell = '**not detected**'
   by[prop][k] = cell
-cols = ['m1', 'm2', 'm3', 'm4', 'm5', 'm6']
+cols = ['m1', 'm2', 'm3', 'm4', 'm5', 'm6', 'm7']
 lines = ['| property | ' + ' | '.join(cols) + ' |', '|---|' + '---|' * len(cols)]
 for prop in sorted(by):
   lines.append('| %s | ' % prop + ' | '.join(by[prop].get(c, '') for c in cols) + ' |')
